@@ -44,27 +44,42 @@ THEOREMS = [
 ]
 
 TRUSTED = [
-    'hand-written model coq/C02/Model.v (modelled, tied by execution only); '
+    'hand-written models coq/C02/Model.v (cards -> SurfaceMCNP -> TRIPOLI-4 '
+    'surfaces, numbering) and coq/C02/Text.v (card text -> card): tied by '
+    'execution on generated inputs, not proved equal to the Python code',
     'Spec coq/C02/Spec.v written from DESIGN Appendix A/B (MCNP manual table '
-    '3.1, TRIPOLI-4 SURF types as the converter authors read them)',
+    '3.1, TRIPOLI-4 SURF types as the converter authors read them); its '
+    'executable reading is tied to harness/mcnpref and t4eval '
+    '(spec-fM, spec-fT4)',
+    'linked properties: the models, Specs and theorems of C04 '
+    '(transformation, convert, torus law, TR card) and C03 (body functions, '
+    'facet conversion, card_gives) are used as they are; the bridges '
+    '(to_ms, body_args) are tied by execution (tie:link-C04, tie:link-C03, '
+    'tie:link-C03-TR)',
     'IEEE-754 rounding: theorems are about exact reals (RS); the binary64 '
     'instance (FS, series for atan) is only compared with the implementation '
-    'at 1e-9 scaled',
+    'at 1e-9 scaled; decimal -> binary64 of number tokens is reproduced '
+    'exactly for <= 15 digits',
     'the SURF/VOLU text written by the converter is read back by '
     'impl.T4File/t4eval (harness); str(float) rendering is not modelled',
     'harness: generators, mcnpref, t4eval, geomcheck, PEG shim replacing TatSu',
 ]
 ASSUMPTIONS = [
-    'cards carry no TR number (moved surfaces are property C04); hence the '
-    'torus branch of convert_torus with a non-coordinate axis is not '
-    'modelled (Err EUnmodelled, never reached by the tie)',
+    'card text is ASCII; float() spellings inf / nan / underscores are '
+    'outside the model of to_float (the generators stay inside)',
+    'cards WITH a TR number: no longer assumed away -- linked to C04 '
+    '(C02_text_every_card_all_mnemonics_linked, C02_torus_tr_linked, '
+    'C02_torus_tr_total_linked) under the hypothesis that the TR card gives '
+    'an orthonormal matrix (card_gives: 12/13 entries, starred, 3 entries, '
+    'abbreviated); macrobody cards: linked to C03 (C02_text_body_linked)',
     'the sheet selector of a K card is absent or of magnitude < 9 (int() '
     'truncation is modelled there; a larger one is Err EUnmodelled); the '
-    'theorems take it in {absent, 0, +1, -1}; t^2 >= 0',
+    'sense theorems take it in {absent, 0, +1, -1}; |int| >= 2 is '
+    'characterised (C02_large_selector); t^2 >= 0',
     'three-point planes: the manual\'s orientation is proved when no tested '
     'quantity lies in the band 0 < |v| <= 1e-14 |n| (the code\'s epsilon); '
-    'inside the band the code follows the thresholded rule (proved) and '
-    'the opposite orientation is the open finding '
+    'inside the band the code follows the thresholded rule (proved for every '
+    'accepted card) and the opposite orientation is the open finding '
     'p3_epsilon_band_orientation; the sweep oracle is exact',
     'X/Y/Z cone form: r1, r2 >= 0 (MCNP admissibility; the sheet is then the one '
     'containing both points, apex-coincident points included)',
